@@ -48,7 +48,7 @@ import (
 // without having looked at the interface.  TestVerifC17RegressionRescanDropped pins the scenario.
 const c17KnownRescanDropped = "c17-iface-rescan-dropped-after-route-list-failure"
 
-// c17KnownStaleTracker is the signature of a finding on the current tree (see final report):
+// c17KnownStaleTracker names a finding this check made (fixed since; TestVerifC17RegressionStaleTracker pins it):
 // RouteTable.resyncIface only re-validates the tracker entries of routes that are desired on the
 // rescanned interface; a tracked route that is owned but not (yet) desired and that the kernel
 // dropped when the link bounced stays in the tracker, so when it becomes desired later Felix
@@ -159,6 +159,10 @@ type c17H struct {
 	foreign map[string]netlink.Route // mock key -> route, everything Felix does not own
 
 	pendingIfaceEvents []func() // undelivered OnIfaceStateChanged calls
+	// ifaceStale: the kernel's interfaces changed and Felix has neither received the event(s) nor
+	// re-listed the links in a full resync since.
+	ifaceStale    bool
+	renamePending bool // an in-place rename whose events are still undelivered
 	extDirty           bool     // a route was edited behind Felix's back since its last full resync
 	resyncRequested    bool     // QueueResync (or a new RouteTable) since the last such edit
 	faultsSinceGood    int
@@ -275,6 +279,7 @@ func (h *c17H) newRouteTable() {
 	)
 	h.desired = map[routetable.RouteClass]map[string]map[c17Key]routetable.Target{}
 	h.pendingIfaceEvents = nil
+	h.ifaceStale, h.renamePending = false, false
 	h.resyncRequested = true // a new RouteTable starts with a full resync
 	// The mock allows one open handle at a time; the old table's handle is abandoned.
 	h.dp.NetlinkOpen = false
@@ -511,10 +516,21 @@ func (h *c17H) apply() error {
 		return err
 	}
 	if h.resyncRequested {
+		// A full resync (requested after the last change Felix was not told about) completed:
+		// Felix listed links and routes itself, its knowledge is current even if the interface
+		// monitor's events are still on their way.
 		h.extDirty = false
 		h.resyncRequested = false
+		if h.ifaceStale {
+			h.classes["iface-change-seen-first-by-full-resync"] = true
+		}
+		if h.renamePending {
+			h.classes["rename-seen-first-by-full-resync"] = true
+			h.renamePending = false
+		}
+		h.ifaceStale = false
 	}
-	if len(h.pendingIfaceEvents) > 0 || h.extDirty {
+	if h.ifaceStale || h.extDirty {
 		h.classes["apply-with-stale-knowledge"] = true
 		return nil
 	}
@@ -558,13 +574,7 @@ func (h *c17H) removeRoutesVia(idx int) {
 		if r.LinkIndex == idx && h.routeOwned(&r) && !wanted[k] {
 			// An owned route Felix does not want (kept only by the grace period, or whose
 			// deletion failed) vanishes with its interface: finding c17KnownStaleTracker.
-			if ev.Known(c17KnownStaleTracker) {
-				h.rec.Excluded(c17KnownStaleTracker)
-				h.extDirty = true
-				h.resyncRequested = false
-			} else {
-				h.suspectStaleTracker = true
-			}
+			h.suspectStaleTracker = true
 		}
 	}
 	for k, r := range h.dp.RouteKeyToRoute {
@@ -578,12 +588,20 @@ func (h *c17H) removeRoutesVia(idx int) {
 func (h *c17H) notify(t *rapid.T, name string, idx int, st ifacemonitor.State) {
 	ev := func() { h.rt.OnIfaceStateChanged(name, idx, st) }
 	if rapid.IntRange(0, 4).Draw(t, "lagNotification") == 0 {
-		h.pendingIfaceEvents = append(h.pendingIfaceEvents, ev)
-		h.classes["iface-event-lagged"] = true
+		h.lag(ev)
 		return
 	}
 	h.deliverPending()
 	ev()
+}
+
+// lag queues interface events for later delivery.  A resync requested earlier may already have
+// run (inside an Apply that failed later), so only one requested from now on counts.
+func (h *c17H) lag(evs ...func()) {
+	h.pendingIfaceEvents = append(h.pendingIfaceEvents, evs...)
+	h.ifaceStale = true
+	h.resyncRequested = false
+	h.classes["iface-event-lagged"] = true
 }
 
 func (h *c17H) deliverPending() {
@@ -591,6 +609,8 @@ func (h *c17H) deliverPending() {
 		e()
 	}
 	h.pendingIfaceEvents = nil
+	h.ifaceStale = false
+	h.renamePending = false
 }
 
 // The pools overlap on purpose: the same destination wanted by several route classes.
@@ -925,6 +945,60 @@ func TestVerifC17RouteSync(t *testing.T) {
 				h.faultsSinceGood++
 				h.ops = append(h.ops, "b")
 			},
+			"ifaceRename": func(t *rapid.T) {
+				// A workload interface is renamed in place (same ifindex, same oper state, routes
+				// stay), as the CNI plugin does with its temporary veth name.  The interface monitor
+				// reports it as deletion of the old name plus creation of the new one; those events
+				// arrive now, or only after Felix has looked at the links itself.
+				var have, free []string
+				for _, n := range []string{"cali1", "cali2", "cali3"} {
+					if _, ok := h.dp.NameToLink[n]; ok {
+						have = append(have, n)
+					} else {
+						free = append(free, n)
+					}
+				}
+				if len(have) == 0 || len(free) == 0 {
+					t.Skip("no workload interface to rename / no free name")
+				}
+				oldName := rapid.SampledFrom(have).Draw(t, "from")
+				newName := rapid.SampledFrom(free).Draw(t, "to")
+				l := h.dp.NameToLink[oldName]
+				delete(h.dp.NameToLink, oldName)
+				l.LinkAttrs.Name = newName
+				h.dp.NameToLink[newName] = l
+				idx := l.LinkAttrs.Index
+				st := ifacemonitor.StateDown
+				if l.LinkAttrs.RawFlags&unix.IFF_RUNNING != 0 {
+					st = ifacemonitor.StateUp
+				}
+				evs := []func(){
+					func() { h.rt.OnIfaceStateChanged(oldName, idx, ifacemonitor.StateNotPresent) },
+					func() { h.rt.OnIfaceStateChanged(newName, idx, st) },
+				}
+				h.classes["iface-renamed"] = true
+				h.faultsSinceGood++
+				h.ops = append(h.ops, "n")
+				switch rapid.IntRange(0, 2).Draw(t, "eventTiming") {
+				case 0: // events first
+					h.deliverPending()
+					evs[0]()
+					evs[1]()
+					h.classes["iface-renamed-events-delivered"] = true
+				case 1: // events late; whatever comes next decides who notices first
+					h.lag(evs...)
+					h.renamePending = true
+					h.classes["iface-renamed-events-lagged"] = true
+				default: // events late and the (periodic) full resync runs first
+					h.lag(evs...)
+					h.renamePending = true
+					h.classes["iface-renamed-events-lagged"] = true
+					h.rt.QueueResync()
+					h.resyncRequested = true
+					h.ops = append(h.ops, "qA")
+					_ = h.apply()
+				}
+			},
 			"deliverIfaceEvents": func(t *rapid.T) {
 				h.deliverPending()
 				h.ops = append(h.ops, "d")
@@ -1121,9 +1195,9 @@ func TestVerifC17RegressionRescanDropped(t *testing.T) {
 }
 
 
-// TestVerifC17KnownStaleTracker is the deterministic confirmation of finding
-// c17KnownStaleTracker (it FAILS while the finding reproduces).  Not in the unit's run regex.
-func TestVerifC17KnownStaleTracker(t *testing.T) {
+// TestVerifC17RegressionStaleTracker is the plain regression test for finding
+// c17KnownStaleTracker (found by this check, fixed since); it fails if the defect comes back.
+func TestVerifC17RegressionStaleTracker(t *testing.T) {
 	ev.Quiet()
 	c17HookGomega()
 	dp := mocknetlink.New()
